@@ -212,19 +212,33 @@ FieldOrName = Union[str, ObjectField, Field]
 
 
 def _bad_field(obj: Any, methods: bool) -> NoReturn:
-    method_types = "property/types.FunctionType" if methods else ""
+    method_types = "/property/types.FunctionType" if methods else ""
     raise TypeError(
         f"Expected dataclasses.Field/apischema.ObjectField/str{method_types}, found {obj}"
     )
 
 
+def _unwrap_method(field_or_name: Any) -> Any:
+    # inside the class body a decorated method (serialized, resolver) is still the
+    # descriptor that registers it at __set_name__
+    from apischema.methods import MethodWrapper
+
+    while isinstance(field_or_name, MethodWrapper):
+        field_or_name = field_or_name._method
+    return field_or_name
+
+
 def check_field_or_name(field_or_name: Any, *, methods: bool = False):
     method_types = (property, FunctionType) if methods else ()
+    if methods:
+        field_or_name = _unwrap_method(field_or_name)
     if not isinstance(field_or_name, (str, ObjectField, Field, *method_types)):
         _bad_field(field_or_name, methods)
 
 
 def get_field_name(field_or_name: Any, *, methods: bool = False) -> str:
+    if methods:
+        field_or_name = _unwrap_method(field_or_name)
     if isinstance(field_or_name, (Field, ObjectField)):
         return field_or_name.name
     elif isinstance(field_or_name, str):
